@@ -176,7 +176,7 @@ Move ==
           /\ pc' = "uop" /\ ui' = ui + 1 /\ act' = <<>> /\ dl' = <<>> /\ left' = 0
           /\ UNCHANGED <<kernel, press, alloc, pass, li, crash, colsum>>
      ELSE \E rz \in (IF ResidueOpen(press[li]) THEN BOOLEAN ELSE {FALSE}) :
-          LET r == Iter(press[li], rz) IN
+          \E r \in {Iter(press[li], rz)} :   \* (a bound variable: TLC evaluates Iter once)
           /\ press' = [press EXCEPT ![li] = r.row]
           /\ colsum' = IF Forms[kernel[li]].tp = 1
                        THEN [ q \in 1..NP |-> colsum[q] + r.row[q] - press[li][q] ] ELSE colsum
